@@ -170,15 +170,6 @@ func (ex *expected) assumption(unit string) benchmath.Assumption {
 
 var csvWarnRe = regexp.MustCompile(`^[A-Z]+[0-9]+: (.*)$`)
 
-func normWarning(msg string) string {
-	if rest, ok := strings.CutPrefix(msg, "benchmarks vary in "); ok {
-		ks := strings.Split(rest, ", ")
-		sort.Strings(ks)
-		return "benchmarks vary in " + strings.Join(ks, ", ")
-	}
-	return msg
-}
-
 func relClose(a, b float64) bool {
 	return a == b || math.Abs(a-b) <= 1e-12*math.Max(math.Abs(a), math.Abs(b))
 }
